@@ -197,6 +197,12 @@ var c06Hostile = func() []string {
 		"select cosine_distance(list(0,0), list(0,0)) where true",
 		"select l2_distance(split(value, ','), list(1,2,3)) where true",
 		"select l2_distance(json(value)['list'], list(1,2,3)) where true",
+		// wave 15 (C06-aa): arrays whose elements are neither numbers nor text
+		`select l2_distance(list(1,2), json('{"v":[1,true]}')['v']) where true`,
+		`select key, l2_distance(json('{"v":[null,{"a":1}]}')['v'], list(1,2)) where true`,
+		`select cosine_distance(json('{"v":[[1],2]}')['v'], list(1,2)) where true`,
+		`select key where cosine_distance(list(3,4), json('{"v":[false,null]}')['v']) > 0`,
+		"select l2_distance(list(1,2,3), json(value)['x']) where true",
 		"select len(1), len('abc'), len(json(value)) where true",
 		"select * where 1 in list(1,2) & 'a' in list(1,2)",
 		"select * where key in json(value)",
